@@ -68,6 +68,7 @@ type replayer struct {
 	base    string
 	log     *strings.Builder
 	globals []*ssa.Global
+	vc      *VC
 }
 
 // contractGlobals: written package variables of the function's package that
@@ -151,8 +152,12 @@ func (rp *replayer) run() {
 		return
 	}
 	vc := newVC(eng, fn, c)
+	rp.vc = vc
 	for g, id := range fr.GlobalIds {
 		vc.globalIds[g] = id // same references for package variables as in the VC
+	}
+	for _, t := range fr.TagTypes {
+		vc.typeTag(t) // same dynamic type tags as in the VC
 	}
 	declared := map[string]bool{}
 	for _, cmd := range fr.Cmds[:o.Prefix] {
@@ -350,7 +355,7 @@ func (rp *replayer) tryCandidate(roots []*xnode, wnames []string, n int) {
 	fn, c := fr.Fn, fr.Contract
 	eng := rp.rep.eng
 	pkg := fn.Pkg.Pkg
-	rend := &goRender{pkg: pkg, imports: map[string]string{}, ptrVars: map[string]string{}}
+	rend := &goRender{vc: rp.vc, pkg: pkg, imports: map[string]string{}, ptrVars: map[string]string{}}
 	rend.rankAbs(roots)
 	gg := &goGen{eng: eng, pkg: pkg, mode: fr.Mode, absStr: eng.cs.pragma(c.PkgPath, "strings") == "ordered",
 		vars: map[string]goVal{}, oldVars: map[string]goVal{}, rend: rend}
@@ -421,7 +426,7 @@ func (rp *replayer) tryCandidate(roots []*xnode, wnames []string, n int) {
 	body.WriteString(strings.Join(prefixLines(rend.stmts, "\t"), "\n") + "\n")
 	body.WriteString(decl.String())
 	// preconditions
-	body.WriteString("\tchk := func(name string, f func() bool) (ok bool) {\n\t\tdefer func() {\n\t\t\tif r := recover(); r != nil {\n\t\t\t\tt.Logf(\"REPLAY-NOTE: oracle %s not evaluable: %v\", name, r)\n\t\t\t\tok = true\n\t\t\t}\n\t\t}()\n\t\treturn f()\n\t}\n")
+	body.WriteString("\tchk := func(name string, f func() bool) (ok bool) {\n\t\tdefer func() {\n\t\t\tif r := recover(); r != nil {\n\t\t\t\tt.Logf(\"REPLAY-NOTE: oracle %s not evaluable: %v\", name, r)\n\t\t\t\tok = true\n\t\t\t}\n\t\t}()\n\t\treturn f()\n\t}\n\t_ = chk\n")
 	for i, rq := range c.Requires {
 		code, _ := gg.clause(rq.Expr)
 		body.WriteString(fmt.Sprintf("\tif !chk(\"requires %d\", func() bool { return %s }) {\n\t\tt.Log(\"REPLAY-SKIP: candidate input does not satisfy the precondition: %s\")\n\t\treturn\n\t}\n", i, code, escq(rq.Src)))
